@@ -1030,10 +1030,11 @@ def u_ccm(ctx, u):
             cases.append((n, nl, 16, r.choice([0, 8])))
     for n, nl, t, a in cases:
         _ccm_case(ctx, n, nl, t, a)
-    if ctx.tier == 'thorough' and u['lo'] == 0:
-        # AAD length 65280 is the first that uses the 6-byte length encoding
-        for a in (65279, 65280, 65281):
-            _ccm_case(ctx, 33, 12, 16, a)
+    if u['lo'] == 0:
+        # AAD lengths 65280 .. 65535 are the first that use the 6-byte length encoding (0xff00..0xffff is an escape range
+        # of the 2-byte form), 65536 is the first that does not fit 16 bits at all
+        for a in (65279, 65280, 65281, 65535, 65536, 65537):
+            _ccm_case(ctx, 33, 12, ctx.rng.choice([4, 8, 16]), a)
     if ctx.tier == 'thorough' and u['lo'] == 1 % u['step']:
         # 2^24 bytes: the largest length field edge a test can afford; round trip only
         _ccm_case(ctx, (1 << 24) + 5, 8, 16, 3, reference=False)
